@@ -1009,11 +1009,15 @@ func (app *App) preBlocker(ph *ProposalHandler) func(sdk.Context, *abci.RequestF
 		changed := res.ConsensusParamsChanged
 
 		res, err = ph.PreBlocker(ctx, req)
+		if err != nil {
+			// ph.PreBlocker returns a nil response with its error (undecodable injected tx)
+			return nil, err
+		}
 		if changed != res.ConsensusParamsChanged {
 			res.ConsensusParamsChanged = true
 		}
 
-		return res, err
+		return res, nil
 	}
 }
 
